@@ -55,11 +55,15 @@ class Gen:
             t = ["fresh", self.rng.randrange(self.n_fresh)]
         elif r < 0.3 and self.compound:
             t = ["u", self.rng.choice(self.compound)]
+        elif r < 0.5:
+            t = ["u", self.rng.choice(self.env.pools.everyday(self.names))]   # the units people actually write
         else:
             t = ["u", self.rng.choice(self.names)]
         r = self.rng.random()
         if r < 0.35:
             pool = self.env.pools.si_prefixes if (not mixed_ok or self.rng.random() < 0.8) else self.env.pools.iec_prefixes
+            if self.rng.random() < 0.4:
+                pool = [x for x in self.env.pools.EVERYDAY_PREFIXES if x in pool] or pool
             t = ["pfx", self.rng.choice(pool), t]
         elif r < 0.42:
             e = self.rng.randint(-7, 7)
